@@ -3,6 +3,7 @@
     compressed block as a parameter; the decoder is the model used for C01-C11. *)
 Require Import Zrs.lib.RsPrelude Zrs.gen.Generated Zrs.model.Headers Zrs.model.BlockDec Zrs.model.FrameDec Zrs.model.FrameEnc.
 Require Import Zrs.proofs.C15_Frame Zrs.proofs.C02_Roundtrip Zrs.proofs.C02_Fastest.
+Require Import Zrs.model.FseDec Zrs.model.SeqSection Zrs.model.BlockEnc Zrs.proofs.C12_SeqStream Zrs.proofs.C02_Block.
 Open Scope Z_scope.
 
 (** level Uncompressed: every input, every fragmentation of the source reads, every block size up to 128 KiB, every
@@ -80,6 +81,32 @@ Theorem C02_fastest_roundtrip_given_block_encoder : forall (cstate : Type) cbloc
     fr_checksum s2 = match hash32 with Some h => Some (le_val (h data)) | None => None end.
 Proof. exact fastest_roundtrip. Qed.
 
+(** a compressed block whose literals go out raw (what [compress_block] writes when a block has at most 1024 literals
+    or a single literal value): literals header, literal bytes, sequence count, mode byte 0xA8, three table
+    descriptions and the bit stream -- [decompress_block] reads all of it back and does exactly "execute the coded
+    sequences over the coded literals", from any decoder state with the right alphabets.  The side conditions on the
+    distributions and tables are decidable ([section_hyps_b]); they are evaluated, and the block model is compared byte
+    for byte with the real block, on every raw-literal block the real compressor emits in the run. *)
+Theorem C02_raw_literal_block_decodes : forall lits dl do dm seqs body sc,
+  block_raw_lits lits dl do dm seqs = ROk body ->
+  zlen lits <= MAX_BLOCK_SIZE -> Z.of_nat (length seqs) <= 98047 ->
+  (seqs <> [] -> section_hyps_b dl do dm seqs = true) ->
+  t_max_symbol (fs_ll (sc_fse sc)) = MAX_LITERAL_LENGTH_CODE -> t_max_symbol (fs_of (sc_fse sc)) = MAX_OFFSET_CODE ->
+  t_max_symbol (fs_ml (sc_fse sc)) = MAX_MATCH_LENGTH_CODE ->
+  decompress_block (zlen body) sc body =
+    match seqs with
+    | [] => ROk {| sc_huf := sc_huf sc; sc_fse := sc_fse sc; sc_buf := db_push (sc_buf sc) lits; sc_hist := sc_hist sc |}
+    | _ =>
+        match build_table MAX_LITERAL_LENGTH_CODE dl, build_table MAX_MATCH_LENGTH_CODE dm, build_table MAX_OFFSET_CODE do with
+        | ROk Dll, ROk Dml, ROk Dof =>
+            let* (buf, hist) := execute_sequences seqs lits (sc_buf sc) (sc_hist sc) in
+            ROk {| sc_huf := sc_huf sc; sc_fse := C12_SeqStream.sc Dll Dml Dof; sc_buf := buf; sc_hist := hist |}
+        | _, _, _ => RErr "tables"
+        end
+    end.
+Proof. exact raw_literal_block_decodes. Qed.
+
+Print Assumptions C02_raw_literal_block_decodes.
 Print Assumptions C02_fastest_roundtrip_given_block_encoder.
 Print Assumptions C02_uncompressed_roundtrip.
 Print Assumptions C02_blocks_independent_of_fragmentation.
